@@ -117,7 +117,7 @@ Class(m, rule) ==
 MonInit(p) ==
   [p |-> p, pend |-> <<>>, held |-> <<>>, um |-> {}, os |-> {}, buf |-> <<>>, neg |-> 0, exp |-> <<>>,
    zs |-> "on", ph |-> "S", good |-> FALSE, el |-> 0, quiet |-> p.qcap,
-   ctx |-> <<>>, ctxSure |-> TRUE, ctxBase |-> <<>>, last |-> "none", sp |-> FALSE, cn |-> FALSE,
+   ctx |-> <<>>, ctxSure |-> TRUE, ctxBase |-> <<>>, last |-> "none", sp |-> FALSE, cn |-> FALSE, ck |-> FALSE,
    fa |-> 0, fp |-> 0, fs |-> FALSE, fd |-> FALSE, fu |-> FALSE, fc |-> FALSE, fh |-> FALSE, fds |-> FALSE, sa |-> FALSE, fo |-> <<>>, err |-> ""]
 
 \* ---- the actual text: OS events applied to the buffer ---------------------------------------
@@ -223,14 +223,18 @@ PressChar(m, k) ==
                  !.ctxSure = ~amb /\ ~ambLit, !.ctxBase = IF HasFollow(p, r.c) THEN r.base ELSE <<>>,
                  !.held = Append([i \in DOMAIN m.held |-> [m.held[i] EXCEPT !.t = IF Len(@) > Len(r.base) THEN r.base ELSE @]],
                                  [k |-> k, t |-> IF OutOf(p, r.c) = <<>> THEN r.pre ELSE r.base]),
-                 !.ph = IF ambLit THEN "M" ELSE ph1, !.good = FALSE, !.cn = TRUE,
+                 !.ph = IF ambLit THEN "M" ELSE ph1, !.good = FALSE, !.cn = TRUE, !.ck = FALSE,
                  !.fa = OMin(@ + 1, 3), !.fo = OutOf(p, r.c), !.fu = @ \/ isPunct,
                  !.fp = IF @ >= 1 THEN 2 ELSE IF share(r.c) THEN 1 ELSE 0,
                  !.fs = @ \/ (share(r.c) /\ shiftHeld), !.fh = @ \/ sameHold(r.c), !.sa = @ \/ shiftHeld]
   ELSE [m EXCEPT !.exp = r.t, !.el = IF first THEN 0 ELSE @, !.last = "lit", !.quiet = 0, !.sp = FALSE,
-                 !.ctx = IF m.ctx # <<>> /\ ~partialCtx THEN <<>> ELSE @,
-                 !.ctxSure = IF m.ctx # <<>> /\ ~partialCtx THEN TRUE ELSE @,
-                 !.ctxBase = IF m.ctx # <<>> /\ ~partialCtx THEN <<>> ELSE @,
+                 \* a key that cannot continue a follow-up chord ends the pending context - certainly so only in the
+                 \* sharp zone (with extra keys held etc. zippychord may see another key set: the context becomes unsure)
+                 !.ctx = IF m.ctx # <<>> /\ ~partialCtx /\ ph1 = "S" THEN <<>> ELSE @,
+                 !.ctxSure = IF m.ctx # <<>> /\ ~partialCtx THEN ph1 = "S" ELSE @,
+                 !.ctxBase = IF m.ctx # <<>> /\ ~partialCtx /\ ph1 = "S" THEN <<>> ELSE @,
+                 \* ... and is over for certain once all keys are released (zippychord clears its history then)
+                 !.ck = IF m.ctx # <<>> /\ ~partialCtx /\ ph1 # "S" THEN TRUE ELSE @,
                  !.held = Append(@, [k |-> k, t |-> r.pre]),
                  !.ph = IF ph1 = "S"
                         THEN (IF boundary /\ sharpWantsAct THEN "X"
@@ -248,11 +252,11 @@ ReleaseChar(m, k) ==
   IN IF held1 # <<>> THEN m1
      ELSE LET on == ph1 = "R" /\ good1 IN
           \* a follow-up context that was not (re)established by an activation in this hold is over
-          IF m.cn
+          IF m.cn /\ ~m.ck
           THEN [m1 EXCEPT !.zs = IF on THEN "on" ELSE "maybe", !.ctxSure = IF on \/ m.ctx = <<>> THEN @ ELSE FALSE,
                           !.ph = "S", !.good = FALSE, !.last = "none", !.cn = FALSE, !.sa = IF m.ctx # <<>> THEN @ ELSE FALSE]
           ELSE [m1 EXCEPT !.zs = IF on THEN "on" ELSE "maybe", !.ctx = <<>>, !.ctxSure = TRUE, !.ctxBase = <<>>,
-                          !.ph = "S", !.good = FALSE, !.last = "none", !.cn = FALSE, !.sa = FALSE]
+                          !.ph = "S", !.good = FALSE, !.last = "none", !.cn = FALSE, !.ck = FALSE, !.sa = FALSE]
 
 Process(m, ev) ==
   LET p == m.p IN
